@@ -783,6 +783,7 @@ pub fn check_pending(case: &super::c12::Case, out: &mut CaseOut) {
 
 pub fn property() -> Property {
     Property {
+        fuzz: vec![],
         id: "C08",
         rule: "a case = layer stack (1..4 policy layers, each Ignore / Inspect / Answer(code, delay) / TakeDrop per method; optionally DialogLayer at any position with 0..2 policy usages; optionally InviteLayer) x 1..4 requests (out-of-dialog, in-dialog for the existing / an unknown dialog, ACK, stray response, byte-identical retransmission; methods INVITE/OPTIONS/BYE/MESSAGE/CANCEL/unknown) arriving 0..2100 ms apart, ACK for rejected INVITEs at 250/700/1800 ms or never; both reliabilities. Oracle: first taking layer in registration order decides the code, else 404 (in-dialog, no usage wants it) / 481 by the stack; wire grouped by (branch, CSeq). Non-trivial = a layer inspects without taking before another layer/the stack answers, or an in-dialog request falls through all usages, or >=2 requests overlap; distinct by case.",
         assumptions: vec![
